@@ -1,6 +1,7 @@
 (* C15 — compiled automata accept exactly the language of the expression that
    built them.  Statements only. *)
-From Coq Require Import List NArith Bool.
+From Coq Require Import List NArith Bool Lia.
+From SNT Require Automata.PathLemmas.
 From SNT Require Import Base.Outcome Automata.Regex Automata.NFA Automata.Build Automata.Compile
   Automata.BuildLeaves Automata.BuildProofs Automata.CompileSpec Automata.CompileProofs Automata.BuildKeys
   Automata.C15Main Automata.RegexProofs Automata.CompileTotal Automata.CompileFast Automata.CompileFastProofs
@@ -15,8 +16,11 @@ Theorem C15_build : forall (e : regex) (s : list N),
   accepts (build e) s <-> matches e s.
 Proof. exact build_accepts. Qed.
 
+(* Supporting facts are `Lemma`s (not counted as obligations of the property): properties of the
+   specification side, of the model alone, or a pin of the repaired defect. *)
+
 (* it is well formed (start, stop and every edge target exist) and starts at 0 *)
-Theorem C15_build_wf : forall e : regex, wf (build e) /\ start (build e) = 0%nat.
+Lemma C15_build_wf : forall e : regex, wf (build e) /\ start (build e) = 0%nat.
 Proof. intros e. split; [apply build_wf|apply build_start]. Qed.
 
 Check C15_build : forall (e : regex) (s : list N), accepts (build e) s <-> matches e s.
@@ -49,7 +53,7 @@ Theorem C15_compile : forall (fuel cf : nat) (n : nfa) (d : dfa),
       end.
 Proof. exact compile_correct. Qed.
 
-Theorem C15_build_keys : forall e : regex, keys_ok (build e).
+Lemma C15_build_keys : forall e : regex, keys_ok (build e).
 Proof. exact build_keys. Qed.
 
 (* The property: the DFA compiled from the NFA built for any expression accepts a
@@ -111,6 +115,11 @@ Theorem C15_tags : forall (e : regex) (fuel cf : nat) (d : dfa),
     exists i, info d k = Ok i /\ forall t, In t (dtags i) <-> tag_law_spec e s t.
 Proof. exact main_tags_general. Qed.
 
+(* the two specifications coincide on the tagged-choice shape *)
+Lemma C15_tags_specs_agree : forall e : regex, tagwf e = true ->
+  forall s t, tag_law_spec e s t <-> tag_spec e s t.
+Proof. exact tex_tagalts. Qed.
+
 (* The special case of the tagged-choice shape `tagwf` (the decoder's automata),
    in the words of the property: the tags of the alternatives that match. *)
 Theorem C15_tags_tagged_choice : forall (e : regex) (fuel cf : nat) (d : dfa),
@@ -121,17 +130,17 @@ Proof. exact main_tags. Qed.
 
 (* the reference matcher used as property predicate by the correspondence check
    decides the denotation *)
-Theorem C15_matcher : forall (s : list N) (e : regex), matcher e s = true <-> matches e s.
+Lemma C15_matcher : forall (s : list N) (e : regex), matcher e s = true <-> matches e s.
 Proof. exact matcher_correct. Qed.
 
-Theorem C15_isempty : forall e : regex,
+Lemma C15_isempty : forall e : regex,
   (isempty e = true -> forall s, ~ matches e s) /\ (isempty e = false -> exists s, matches e s).
 Proof. exact isempty_correct. Qed.
 
 (* The efficient rendering used to evaluate the model under vm_compute (binary
    NFA state ids, positive-map lookup) is the reference model: equal results for
    every NFA and every fuel, including Panic / OutOfFuel. *)
-Theorem C15_compile_fast : forall (fuel cf : nat) (n : nfa),
+Lemma C15_compile_fast : forall (fuel cf : nat) (n : nfa),
   compile_fast fuel cf n = compile fuel cf n.
 Proof. exact compile_fast_eq. Qed.
 
@@ -140,7 +149,7 @@ Check C15_main : forall (e : regex) (fuel cf : nat) (d : dfa),
   forall s, bytes s -> exists b, dfa_matches d s = Ok b /\ (b = true <-> matches e s).
 
 (* the in-place `optional` of the original code is unsound: (a+ b)? accepts "a" *)
-Theorem C15_optional_inplace_refuted :
+Lemma C15_optional_inplace_refuted :
   exists e s, (let* d := compile_default (build_v0 e) in dfa_matches d s) = Ok true /\ matcher e s = false.
 Proof. exists (Opt (Seq [Plus (Lit [97]); Lit [98]])), [97]. vm_compute. split; reflexivity. Qed.
 
@@ -190,6 +199,22 @@ Proof.
   split.
   - unfold keys_ok, hand_nfa. cbn. repeat constructor; cbn; intuition discriminate.
   - eexists. split; [vm_compute; reflexivity|]. vm_compute. repeat split; reflexivity.
+Qed.
+
+(* C15_compile_total on an NFA outside the image of build: its hypotheses hold of hand_nfa and
+   a concrete fuel is exhibited *)
+Example C15_compile_total_nonvacuous :
+  wf hand_nfa /\ keys_ok hand_nfa /\ exists d, compile 10 100 hand_nfa = Ok d.
+Proof.
+  split; [|split].
+  - unfold wf, size, hand_nfa. cbn [start stop states length]. split; [lia|]. split; [lia|].
+    intros q l q' H. unfold nstep in H. cbn [states] in H.
+    repeat (apply PathLemmas.gstep_cons in H; destruct H as [[_ H] | H];
+            [destruct l; cbn in H; intuition (try discriminate; try congruence);
+             match goal with E : (_, _) = (_, _) |- _ => inversion E; subst; lia | E : _ = q' |- _ => subst; lia end|]).
+    apply PathLemmas.gstep_nil in H. contradiction.
+  - unfold keys_ok, hand_nfa. cbn. repeat constructor; cbn; intuition discriminate.
+  - eexists. vm_compute. reflexivity.
 Qed.
 
 Example C15_nonvacuous :
